@@ -27,6 +27,32 @@ def run(pid):
     rng = random.Random(vlib.seed())
     vlib.build_harness()
     thorough = vlib.tier() == "thorough"
+    # 0. the byte-accurate mechanism model: Store.tla is model-checked (Refines = C01 at design level), every transition of
+    #    its state graph is executed on the real store (verdict: StoreTrace) and the model's files are compared with the
+    #    projection of the real files after every flush (StoreMTrace: model-conformance figure, not a verdict)
+    mkeys = [[1, 7, 7, 0, 9, 0, 3, 3], [1, 7, 7, 0, 9, 0, 3, 4], [2, 7, 7, 0, 9, 0, 3, 3]]
+    drift_total = checked_total = 0
+    for pl, il, mc in ([(30, 30, 6), (70, 70, 6), (200, 70, 5)] if thorough else [(30, 30, 5)]):
+        consts = {"Vals": "{0, 5}", "PriLimit": pl, "IdxLimit": il, "MaxCalls": mc}
+        r0 = vlib.tlc_must("MCStore", "MCStore_mc.cfg", consts=consts, timeout=3000)
+        if r0.violated:
+            raise vlib.Infra("Store.tla violates Refines / PredictedPositionsExact / FreedOnce - replay the counter-example first:\n" + r0.out[-2500:])
+        rep.add_model(r0)
+        ms, g0, nexp = vlib.gen_scenarios("MCStore", "MCStore", consts, edges=True, timeout=3000)
+        mcfg = dict(primary="mh", bits=8, il=il, pl=pl, imm=False, keys=mkeys, vals=["empty", "b5"], proj=True, probe="end")
+        msc = [{"cfg": mcfg, "ops": [dict(o, v=(1 if o.get("vlen") == 0 else 2)) if o["op"] == "put" else o for o in s["ops"]]} for s in ms]
+        vlib.log("C01: Store.tla limits %d/%d, <= %d calls: %d states, %d transitions, %d maximal histories" % (pl, il, mc, g0.distinct, nexp, len(msc)))
+        bym, nm = seqeng.run_and_judge(msc, "mech", monitors=[("StoreTrace", None)], keep=True)
+        report_bad(rep, msc, bym)
+        drift, nl, _ = vlib.validate_traces("StoreMTrace", "StoreMTrace.cfg", seqeng.KEPT_FILES, consts=dict(consts, MaxCalls=100000))
+        for f in seqeng.KEPT_FILES:
+            os.unlink(f)
+        drift_total += len({(b["t"]) for b in drift})
+        checked_total += len(msc)
+        rep.cov["evaluations"] += nm
+        rep.cov["traces_validated_against_impl"] += len(msc)
+    rep.cov["mechanism_model_histories_replayed"] = checked_total
+    rep.cov["mechanism_model_histories_whose_files_differ_from_the_model"] = drift_total
     # 1. every history of put/remove/flush up to the bound over 3 keys (2 sharing bucket and prefix) x 3 values (one empty)
     blen = 5 if thorough else 4
     consts = seqeng.kv_consts(3, ["put", "rem", "flush"], blen, nv=3)
@@ -45,7 +71,7 @@ def run(pid):
     report_bad(rep, scens, by)
     rep.cov["evaluations"] += n
     rep.cov["traces_validated_against_impl"] += len(scens)
-    rep.cov["samples"] = [scens[len(scens) // 3]["ops"], scens[-1]["ops"]]
+    rep.cov["samples"] = [scens[len(scens) // 3]["ops"], scens[-1]["ops"], msc[len(msc) // 2]["ops"]]
     # 2. TLC -simulate walks with all calls, under a seeded configuration sweep
     nsim, depth = (20000, 60) if thorough else (1500, 40)
     w = ["put"] * 5 + ["rem"] * 2 + ["flush"] * 2 + ["get", "has", "size", "iter"]
